@@ -88,7 +88,7 @@ def run_tlc(module_path: str, cfg_path: Optional[str] = None, workers: int | str
     own = scratch is None
     scratch = scratch or tempfile.mkdtemp(prefix="verif-tlc-")
     meta = tempfile.mkdtemp(prefix="meta-", dir=scratch)
-    cmd = ["java", "-XX:+UseParallelGC", "-Xmx" + heap, "-DTLA-Library=" + SPECS, *jvm,
+    cmd = ["java", "-XX:+UseParallelGC", "-Xmx" + heap, "-Xss512m", "-DTLA-Library=" + SPECS, *jvm,
            "-cp", TLA_JAR + ":" + TLA_DEPS, "tlc2.TLC",
            "-workers", str(workers), "-metadir", meta, "-noGenerateSpecTE"]
     if cfg_path:
@@ -114,7 +114,7 @@ def run_tlc(module_path: str, cfg_path: Optional[str] = None, workers: int | str
     fatal = [l for l in res.errors if any(s in l for s in (
         "Parsing or semantic analysis failed", "TLC threw an unexpected exception",
         "java.lang.", "Unknown operator", "TLC encountered an unexpected exception",
-        "was not found", "Error reading configuration", "The configuration file"))]
+        "was not found", "Error reading configuration", "The configuration file", "StackOverflowError"))]
     if "Parsing or semantic analysis failed" in p.stdout or "***Parse Error***" in p.stdout:
         fatal.append("parse error")
     if fatal:
@@ -423,6 +423,64 @@ class Check:
             self.pid, self.tier, self.cov["states"], self.cov["transitions"],
             self.cov["traces_validated_against_impl"], self.cov["evaluations"], time.time() - self.t0))
         return 0
+
+
+def model_check(chk: "Check", module: str, cfg_text: str, label: str, workers="auto", timeout: int = 3600,
+                heap: str = "8g") -> TlcResult:
+    """Exhaustively check a bounded model (module name in /verif/specs, cfg given as text)."""
+    cfg = os.path.join(chk.scratch, "mc-%s-%d.cfg" % (module, len(chk.cov["tlc_runs"])))
+    with open(cfg, "w") as f:
+        f.write(cfg_text)
+    res = run_tlc(os.path.join(SPECS, module + ".tla"), cfg, workers=workers, scratch=chk.scratch, timeout=timeout, heap=heap)
+    chk.require_model_ok(res, label)
+    return res
+
+
+def export_records(chk: "Check", module: str, cfg_text: str, label: str, timeout: int = 3600, heap: str = "8g") -> List[Any]:
+    """Run an *_MBT wrapper with one worker and return everything it printed with PrintT(ToJson(..))."""
+    cfg = os.path.join(chk.scratch, "mbt-%s-%d.cfg" % (module, len(chk.cov["tlc_runs"])))
+    with open(cfg, "w") as f:
+        f.write(cfg_text)
+    res = run_tlc(os.path.join(SPECS, module + ".tla"), cfg, workers=1, scratch=chk.scratch, timeout=timeout, heap=heap)
+    if not res.ok:
+        raise MachineryError("%s export failed:\n%s" % (module, res.out[-3000:]))
+    chk.add_tlc(res, label + " (export)")
+    return res.printed()
+
+
+def check_traces(chk: "Check", module: str, cfg_text: str, traces: List[List[dict]], label: str,
+                 shards: int = NCPU, timeout: int = 3600) -> Dict[int, List[dict]]:
+    """B2: validate recorded traces with TLC and register a violation per failing trace.
+
+    The trace spec names failed clauses with PrintT(ToJson([fail |-> name, line |-> l, tid |-> tid]))
+    and keeps going; a trace it cannot consume at all is a rejection.  Returns {trace index: fails}.
+    """
+    acc, rej, results = validate_traces(module, cfg_text, traces, chk.scratch, shards=shards, timeout=timeout)
+    fails: Dict[int, List[dict]] = {}
+    for r in results:
+        chk.add_tlc(r, module + " " + label)
+        for rec in r.printed():
+            if isinstance(rec, dict) and "fail" in rec:
+                fails.setdefault(rec["tid"], []).append(rec)
+    chk.cov["traces_validated_against_impl"] += len(traces)
+    chk.count(sum(len(t) for t in traces))
+    for ti, j, ev in rej:
+        chk.violation("B2 %s: trace rejected by %s at event %d (%s)" % (label, module, j, ev.get("ev")),
+                      {"kind": "b2-reject", "label": label, "event": ev.get("ev")},
+                      {"trace_prefix": _clip(traces[ti][:j + 1][-12:]), "rejected": _clip(ev)})
+    for tid, fl in fails.items():
+        chk.violation("B2 %s: %s" % (label, fl[0]["fail"]),
+                      {"kind": "b2", "label": label, "clause": fl[0]["fail"]},
+                      {"failed_clauses": fl[:5], "trace_prefix": _clip(traces[tid][:30])})
+    return fails
+
+
+def _clip(x, n=60):
+    if isinstance(x, list):
+        return [_clip(v, n) for v in (x if len(x) <= n else x[:n] + ["..."])]
+    if isinstance(x, dict):
+        return {k: _clip(v, n) for k, v in x.items()}
+    return x
 
 
 def impl_call(fn: Callable, *a, **kw) -> Tuple[str, Any]:
